@@ -19,7 +19,7 @@ ASSUMPTIONS = [
 SCORE_DETECTORS = ("PELT", "MovingWindow", "CAPA", "MVCAPA")
 
 
-ALL_INDEX_KINDS = D.INDEX_KINDS + D.REPEAT_INDEX_KINDS
+ALL_INDEX_KINDS = D.INDEX_KINDS + D.REPEAT_INDEX_KINDS + D.TZ_INDEX_KINDS
 
 
 @st.composite
@@ -27,7 +27,7 @@ def repr_spec(draw, p, integral, index_kinds=ALL_INDEX_KINDS, column_kinds=D.COL
     containers = ["DataFrame", "ndarray2d"] + (["Series", "ndarray1d"] if p == 1 else [])
     return {"container": draw(st.sampled_from(containers)),
             # narrower integer types are used where every value fits (see `represent`)
-            "dtype": draw(st.sampled_from(["int64", "float64", "int32", "int16"])) if integral else "float64",
+            "dtype": draw(st.sampled_from(["int64", "float64", "int32", "int16", "float32"])) if integral else "float64",
             "index": draw(D.index_spec(index_kinds)), "columns": draw(st.sampled_from(column_kinds))}
 
 
@@ -41,6 +41,8 @@ def represent(X, r, offset=0):
         if r["dtype"] != "int64" and arr.size and np.abs(arr).max() > np.iinfo(dt).max:
             dt = np.dtype("int64")  # the values do not fit the narrower type
         arr = arr.astype(dt)
+    elif r["dtype"] == "float32" and np.array_equal(arr.astype(np.float32).astype(np.float64), arr):
+        arr = arr.astype(np.float32)  # single precision, where it holds exactly the same numbers
     n, p = arr.shape
     if r["container"] == "ndarray2d":
         return arr
@@ -112,7 +114,7 @@ def cases(draw, tier, det):
                  "index": {"kind": "range0"}, "columns": "default"}
             r2 = dict(r, container=draw(st.sampled_from(containers)))
         else:
-            r = draw(repr_spec(p, integral, D.INDEX_KINDS, D.UNIQUE_COLUMN_KINDS))  # pandas alignment needs unique labels
+            r = draw(repr_spec(p, integral, D.INDEX_KINDS + D.TZ_INDEX_KINDS, D.UNIQUE_COLUMN_KINDS))  # pandas alignment needs unique labels
             r["container"] = draw(st.sampled_from(["DataFrame"] + (["Series"] if p == 1 else [])))
             r2 = dict(r, dtype=draw(st.sampled_from(["float64", "int64"])) if integral else "float64")
             # 1-3 chunks; each continues the data seen so far, overlaps its last 1-2 rows, or leaves a gap, and has its own
@@ -129,6 +131,8 @@ def cases(draw, tier, det):
         case["reprs"] = {"fit": draw(repr_spec(p, integral))}
     if draw(st.integers(0, 3)) == 0:
         nt = draw(st.integers(n_min, max(n_min, nmax)))
+    if draw(st.integers(0, 3)) == 0:
+        case["reprs"]["prefit"] = draw(repr_spec(p, integral))
     fit_r = case["reprs"]["fit"]
     for ep in ("predict", "transform", "scores"):
         r = draw(repr_spec(p, integral))
@@ -167,6 +171,8 @@ def run_history(case, canonical_run):
     n_train = len(X)
     R = case["reprs"]
     out = {}
+    if not canonical_run and "prefit" in R:
+        det.fit(represent(X, R["prefit"]))  # the same numbers had been fitted before, in another container / under another index
     obj = canonical(X) if canonical_run else represent(X, R["fit"])
     det.fit(obj)
     if not canonical_run:
@@ -254,6 +260,8 @@ def check(case):
     classes = []
     for ep, r in R.items():
         classes.append(f"{ep}:{r['container']}")
+    if "prefit" in R:
+        classes.append("same_numbers_fitted_before_in_another_form")
     if "X_update" in case or "updates" in case:
         classes.append(f"update_mode={case['update_mode']}")
     if "updates" in case:
@@ -266,6 +274,8 @@ def check(case):
         classes.append("int64")
     if any(r["dtype"] in ("int32", "int16") for r in R.values()):
         classes.append("int32/int16")
+    if any(r["dtype"] == "float32" for r in R.values()):
+        classes.append("float32")
     pandas_reprs = [r for r in R.values() if r["container"] in ("DataFrame", "Series")]
     if any(r["index"]["kind"].startswith(("datetime", "period")) for r in pandas_reprs):
         classes.append("time_index")
